@@ -3,3 +3,6 @@ import Eliot.Properties.C03Fin
 #print axioms Sys.C03Fin.finishRec_finished_noop
 #print axioms Sys.C03Fin.finishRec_success_is_translated
 #print axioms Sys.C03Fin.finishRec_failure_is_translated
+#print axioms Sys.C03Fin.startRec_is_translated
+#print axioms Sys.C03Fin.buildLog_is_translated
+#print axioms Sys.C03Fin.start_log_shape
